@@ -3,6 +3,8 @@ Specification vocabulary for C11: what is assumed about deps.dev (the only assum
 explicit hypothesis of the theorems that need it) and what "within the level" means.
 -/
 import Scalibr.Model.Override
+import Scalibr.Model.OverrideMulti
+import Scalibr.Spec.VersionOrder
 import Scalibr.Model.Relax
 import Scalibr.Model.SuggestMaven
 namespace Scalibr.Upgrade
@@ -16,11 +18,33 @@ structure DiffClassLaws (diff : Nat → Nat → Nat) : Prop where
       (diff a c ≠ dMajor ∧ diff a c ≠ dMinor)
   same : ∀ a b c, diff a b = dSame → diff b c = dSame → diff a c = dSame
 
-/-- re-resolution yields the version the requirement was pinned to -/
-def HonoursPins (resolve : Nat → Nat) : Prop := ∀ b, resolve b = b
+/-- What deps.dev's resolver (with the override client) guarantees for a pinned requirement, and nothing
+more: a package whose requirement / dependencyManagement entry names version `b` is resolved at `b` if it is in
+the graph at all.  Packages without an entry are unconstrained (they move with whoever requires them). -/
+def HonoursPinsM (resolve : OverrideMulti.Pins → OverrideMulti.Res) : Prop :=
+  ∀ pins p b, pins.getD p none = some b → (resolve pins).getD p none = some b ∨ (resolve pins).getD p none = none
 
-/-- `slices.SortFunc` contract + a comparator that never calls two distinct versions equal -/
-def StrictSorted (vs : List Nat) : Prop := vs.Pairwise (· < ·)
-def Sorted (vs : List Nat) : Prop := vs.Pairwise (· ≤ ·)
+/-- `slices.SortFunc` contract: the list is ascending in the comparator's rank -/
+def Sorted (rank : Nat → Nat) (vs : List Nat) : Prop := vs.Pairwise (fun a b => rank a ≤ rank b)
+/-- … and the comparator never calls two listed versions equal (false for Maven's `1.0` / `1.0.0`) -/
+def StrictSorted (rank : Nat → Nat) (vs : List Nat) : Prop := vs.Pairwise (fun a b => rank a < rank b)
+
+/-! ### what the property accepts (used by the driver for its `spec=` verdicts) -/
+
+/-- a written version `x` is an acceptable move from base `b`: strictly upward in the order and within the level -/
+def acceptable (level : Nat) (rank : Nat → Nat) (diff : Nat → Nat → Nat) (b x : Nat) : Bool :=
+  decide (rank b < rank x) && allows level (diff b x) && level != lNone
+
+/-- Relax: acceptable indices for the version the new requirement is built from (`last` = highest matching the old one) -/
+def relaxAcceptable (t : Relax.T) (level : Nat) (last : Option Nat) : List Bool :=
+  (List.range t.n).map fun i => match last with
+    | some l => decide (l < i) && allows level ((t.diff l i).getD dOther) && level != lNone
+    | none => false
+
+/-- bulk update: acceptable versions for one requirement -/
+def updateAcceptable (level : Nat) (cur : Option Suggest.V) (vs : List Suggest.V) : List Bool :=
+  vs.map fun v => match cur with
+    | some c => decide (c.rank < v.rank) && allows level v.diff && level != lNone
+    | none => false
 
 end Scalibr.Upgrade
